@@ -711,7 +711,7 @@ def run(ctx):
 
     warnings.simplefilter("ignore")
     rng = ctx.rng
-    nprog = ctx.pick({"quick": 60, "thorough": 600})
+    nprog = ctx.pick({"quick": 60, "thorough": 450})
     variants = {
         "plain": "save-update, merge",
         "orphan": "all, delete-orphan",
